@@ -335,6 +335,33 @@ func init() {
 				}
 			}
 		}
+		// bodies of ONE statement whose VALUE is observed (a function without return called in a condition,
+		// compared with nil, printed; a loop body; an if block bound by let): cutting the body into tags,
+		// adding comment tags or line comments inside it changes nothing
+		for _, t := range []struct {
+			canon    string
+			variants []string
+		}{
+			{"<% let f = fn(a) { a = 2 } %><%= if (f(1)) { %>T<% } else { %>F<% } %>|<%= f(1) == nil %>|<%= f(1) %>",
+				[]string{"<% let f = fn(a) { %><% a = 2 %><% } %><%= if (f(1)) { %>T<% } else { %>F<% } %>|<%= f(1) == nil %>|<%= f(1) %>",
+					"<% let f = fn(a) { %><%# set a %><% a = 2 %><% } %><%= if (f(1)) { %>T<% } else { %>F<% } %>|<%= f(1) == nil %>|<%= f(1) %>",
+					"<% let f = fn(a) { # set a\n a = 2 } %><%= if (f(1)) { %>T<% } else { %>F<% } %>|<%= f(1) == nil %>|<%= f(1) %>",
+					"<% let f = fn(a) { %><% a = 2 %><%# done %><% } %><%= if (f(1)) { %>T<% } else { %>F<% } %>|<%= f(1) == nil %>|<%= f(1) %>"}},
+			{"<% let g = fn() { n } %><%= if (g()) { %>T<% } else { %>F<% } %>|<%= g() %>",
+				[]string{"<% let g = fn() { %><%# c %><% n %><% } %><%= if (g()) { %>T<% } else { %>F<% } %>|<%= g() %>", "<% let g = fn() {\n\n n\n } %><%= if (g()) { %>T<% } else { %>F<% } %>|<%= g() %>"}},
+			{"<%= for (x) in xs { %><% let u = x %><% } %>|<%= for (x) in xs { %><%= x %><% } %>",
+				[]string{"<%= for (x) in xs { %><%# c %><% let u = x %><% } %>|<%= for (x) in xs { %><%# c %><%= x %><%# d %><% } %>", "<%= for (x) in xs { let u = x } %>|<%= for (x) in xs { %><%= x %><% } %>"}},
+			{"<%= if (t) { %><% acc = 5 %><% } %>|<%= if (t) { %><%= acc %><% } %>", []string{"<%= if (t) { %><%# c %><% acc = 5 %><% } %>|<%= if (t) { %><%# c %><%= acc %><% } %>", "<%= if (t) { acc = 5 } %>|<%= if (t) { %><%= acc %><% } %>"}},
+		} {
+			o0 := e.addRenderCase("one-statement-canon", RCase{Tmpl: t.canon, Binds: binds})
+			e.Distinct(t.canon)
+			for _, v := range t.variants {
+				o := e.addRenderCase("one-statement-relayout", RCase{Tmpl: v, Binds: binds})
+				if norm(o) != norm(o0) {
+					e.Violate("c18-layout", fmt.Sprintf("canonical %q renders %q but re-layout %q renders %q", t.canon, norm(o0), v, norm(o)), map[string]interface{}{"canonical": t.canon, "relayout": v, "observed": o, "canonical_observed": o0})
+				}
+			}
+		}
 		// the two documented exceptions, and the repaired # comment defect
 		for _, t := range [][2]string{{"<%= n - 1 %>", "2"}, {"<%= 1 # c\n+2 %>", "3"}, {"<%= len(# c\nxs) %>", "2"}, {"<%= # c\nlen(xs) %>", "2"}, {"<%= 1 #\n+2 %>", "3"}, {"<% let q = 1\n#\nq = q + 2 %><%= q %>", "3"}, {"<% let q = 1 #\nq = q + 2\n#\n %><%= q %>", "3"}, {"<%= 1 #\r\n+2 %>", "3"}, {"<%=n%>", "3"}, {"<%=\nn\n%>", "3"}, {"<%let q=n;q=q+1%><%=q%>", "4"}} {
 			c := RCase{Tmpl: t[0], Binds: binds}
